@@ -178,6 +178,50 @@ SUMMARY4 = {
  "C20-H": ("exceptions outside the Exception hierarchy are restored as pending and re-raised after the planner returns", "callback raising KeyboardInterrupt / GeneratorExit / a BaseException subclass"),
 }
 
+# fifth round (fresh sub-agents, told the 160 ideas of rounds 1-4); stored as <ID>-I / <ID>-J
+SUMMARY5 = {
+ "C01-I": ("PRM::solve, when no milestone lies in the goal region, samples a goal state, links it to the roadmap and appends it to the path without validating it", "small goal region overlapping an obstacle, goal sample marginally inside it"),
+ "C01-J": ("RRTConnect::solve tries a direct start-to-goal-root connection before the InvalidStartState check (check_motion never looks at `from`)", "first solve after setup, start marginally inside an obstacle, free line of sight to the goal root"),
+ "C02-I": ("RRTConnect::solve 'start already satisfies the goal' shortcut builds the one-state path from the goal tree", "start state inside the goal region: the path's first state is the sampled goal root"),
+ "C02-J": ("RRTConnect::solve moves the two trees out of self, swaps them by role and hands them back without consulting the role flag", "a solve ending while the goal tree was the grown one, then another solve without setup"),
+ "C03-I": ("RRT::check_motion receives the deadline and breaks out of its loop when it expires, falling through to `true`", "timeout expiring mid-check, then the goal reached in that iteration or another solve on the same tree"),
+ "C03-J": ("PRM::solve connects every valid start state and pools the connections while the path still begins at the first start", "two or more start states, goal reached through a milestone connected from a later one"),
+ "C04-I": ("SO2 interpolate `diff > PI` became `diff >= PI` (as C10-F)", "half-circle interval, start exactly pi below the goal sample: the path runs outside the interval"),
+ "C04-J": ("R^n sample_uniform samples one-sided coordinates in a unit window next to the finite bound; the (-inf, upper) arm puts it above the bound", "box with a (-inf, finite) coordinate"),
+ "C05-I": ("Compound interpolate passes t * weight_i to each subspace", "compound / SE2 / SE3 with a weight above 1"),
+ "C05-J": ("Python RRTConnect SE3 arm calls new(goal_bias, max_distance, ...)", "Python RRT-Connect on SE(3) with max_distance < goal_bias"),
+ "C06-I": ("PRM construct_roadmap build-time check became elapsed > timeout && !roadmap.is_empty()", "all-invalid world or a sampler that always fails: construction never returns"),
+ "C06-J": ("PRM::solve attaches the nearest milestone without check_motion when nothing passes the radius and motion test", "start sealed into a pocket too small to hold a milestone: Ok(path) through the wall"),
+ "C07-I": ("PRM::solve start-connection loop breaks once the budget is used up and the BFS runs with a fresh timer", "deadline expiring during start connection (zero or tiny timeout): the clock decides the answer"),
+ "C07-J": ("RRT-Connect goal-root re-draw loop checks the clock and takes the 'no valid root' exit", "partly invalid goal region, invalid root from setup, zero or tiny budget: NoSolutionFound instead of Timeout"),
+ "C08-I": ("PRM construction budget hoisted into Duration::from_secs_f64(self.timeout)", "negative (or NaN / huge) construction timeout: panic"),
+ "C08-J": ("PRM::solve merges the two PlannerUninitialised look-ups into a match whose mixed case is unreachable!", "new, set_problem_definition(P2), [construct_roadmap], solve without setup: panic"),
+ "C09-I": ("RealVector distance rewritten as sqrt(max(0, |a|^2 + |b|^2 - 2 a.b))", "near-identical states, or large states that differ slightly (cancellation)"),
+ "C09-J": ("SO3 distance returns 0 whenever |dot| > 1 - 1e-9", "rotations closer than about 9e-5 rad"),
+ "C10-I": ("SO3 interpolate: branch test on the signed dot, hemisphere sign applied only inside the SLERP branch", "to == -from (dot exactly -1): NaN for every t"),
+ "C10-J": ("RealVector interpolate in blocks of four with a slip in the fourth lane: a[3] + (b[3] - a[2]) t", "dimension >= 4 and from[2] != from[3]"),
+ "C11-I": ("SO3 satisfies_bounds slack becomes relative: max_angle (1 + 1e-7)", "degenerate cones (radius 0 .. 1e-5) whose centre's self dot product rounds below 1"),
+ "C11-J": ("SO3State::normalise overflow branch returns the quaternion divided by its largest component without renormalising", "overflowing quaternion with two or more comparable huge components"),
+ "C12-I": ("SO3StateSpace::new negative-radius check max_angle < 0 became < -BOUNDS_TOLERANCE", "radius in [-1e-7, 0)"),
+ "C12-J": ("SO2StateSpace::new clamp rewritten as if lower < -PI {..} else if upper > PI {..}", "both ends outside [-pi, pi] at once: (-4, 4) stored as (-pi, 4)"),
+ "C13-I": ("Compound distance accumulates w*w * d*d instead of (d*w)^2", "weights above 1.3e154 or below 1e-154"),
+ "C13-J": ("SE2StateSpace::new replaces a rotation weight that is not > 0 by 1", "SE(2) with rotation weight exactly 0"),
+ "C14-I": ("SO2 sample_uniform places the arc by the circular mean of its bounds and clamps", "interval wider than pi that is not the full circle: samples pile up at the ends"),
+ "C14-J": ("SE3 sample_uniform draws the rotation with Shoemake's algorithm, assuming an unbounded rotation part", "SE3StateSpace assembled from a compound with a cone-bounded SO(3) component"),
+ "C15-I": ("RRTConnect::solve hands the swapped trees back without the role flag (as C02-J)", "call ending while the goal tree is being grown, then a second solve or a tree inspection"),
+ "C15-J": ("Compound interpolate skips zero-weight components (as C01-C)", "zero weight, obstacle on that component, motion longer than one check step"),
+ "C16-I": ("RRT* caches the goal-bias coin (Bernoulli) in new()", "public goal_bias changed after construction"),
+ "C16-J": ("RRT: a failed goal.sample_goal in the goal-biased branch falls back to sample_uniform", "goal_bias 1 and a goal sampler that returns Err"),
+ "C17-I": ("RRT* check_motion clamps the distance used for the step count with .min(max_distance)", "search radius > step: choose-parent / rewire edges checked at a coarser spacing (still below L unless radius > 10 x step)"),
+ "C17-J": ("Python PyRrtStar::new swaps max_distance and search_radius in the Compound arm (as C19-D)", "Python RRT* over a compound space with radius != step"),
+ "C18-I": ("PRM solve attaches the start as a temporary roadmap node and pops it only on success", "a query that fails after the search started, then a roadmap inspection or another query"),
+ "C18-J": ("PRM keeps a component label per milestone but folds only one foreign component when a sample merges several; solve drops goal milestones with another label", "a sample joining three or more components, then a query across the stale boundary"),
+ "C19-I": ("Python PyPrm::setup caches the wrapped validity callback the first time it is called", "setup(cb1), setup(cb2), construct_roadmap, solve on one PRM object"),
+ "C19-J": ("Python SO2State stores the angle directly when |value| <= pi", "SO2State(math.pi): +pi where the core holds -pi"),
+ "C20-I": ("core RRT*: a goal-biased sample within one step is taken as the new node and accepted as goal without calling is_satisfied", "goal fault region overlapping the area sample_goal draws from"),
+ "C20-J": ("Python validity checker latches an 'uncallable' flag on any TypeError and answers False from then on", "callback body raising TypeError in a partial region or at one call"),
+}
+
 # strengthened from the change description before the first run (so the first log already shows it caught)
 PRE_EMPTED = {
  "C10-F": "not run against the earlier check: reading the description showed that the reversal clause skipped exactly antipodal pairs, which the statement includes; the clause was extended first",
@@ -257,6 +301,11 @@ def main():
         res4 = parse_results(["/verif/seeded/logs/round4_quick_checks.txt", "/verif/seeded/logs/round4_after_strengthening.txt"])
         first4 = parse_results(["/verif/seeded/logs/round4_quick_checks.txt"])
         build(SUMMARY4, "/tmp/mut4", {"G": "A", "H": "B"}, res4, rows4, first4)
+    rows5 = []
+    if os.path.exists("/verif/seeded/logs/round5_quick_checks.txt"):
+        res5 = parse_results(["/verif/seeded/logs/round5_quick_checks.txt", "/verif/seeded/logs/round5_after_strengthening.txt"])
+        first5 = parse_results(["/verif/seeded/logs/round5_quick_checks.txt"])
+        build(SUMMARY5, "/tmp/mut5", {"I": "A", "J": "B"}, res5, rows5, first5)
     res = parse_results(["/verif/seeded/logs/quick_checks_final.txt", "/verif/seeded/logs/quick_checks_after_strengthening.txt"])
     rows = []
     for mid, (what, needs) in sorted(SUMMARY.items()):
@@ -292,7 +341,7 @@ def main():
         }
         json.dump(meta, open(f"{dst}/meta.json", "w"), indent=1)
         rows.append((mid, what, needs, caught, silent, other))
-    rows = sorted(rows + rows2 + rows3 + rows4)
+    rows = sorted(rows + rows2 + rows3 + rows4 + rows5)
     with open("/verif/seeded/SUMMARY.md", "w") as f:
         f.write("# Seeded changes written by sub-agents and the outcome of the quick checks\n\n")
         f.write("| id | change | needs | caught by (quick tier) | silent (run, not expected to fire unless listed first) |\n|---|---|---|---|---|\n")
